@@ -115,6 +115,15 @@ def check_pack(out, t, bits, tag):
         r2 = cut(lambda: (p + 0))
         if isinstance(r2, Raised) or not torch.equal(r2, t):
             out.fail(f"{tag}/op-after-caller-update", "an op on the packed tensor no longer acts on the packed values after an earlier unpack() result was updated in place")
+    # ... and the tensor that was packed still belongs to the caller: a packed tensor holds the values it was given, so reusing
+    # the source buffer afterwards must not change what unpack() returns
+    if t.numel() and t is not t_keep:
+        upd = cut(lambda: t.add_(1).bitwise_and_((1 << bits) - 1))  # (torch refuses in-place updates of expanded tensors)
+        u3 = cut(p.unpack)
+        if not isinstance(upd, Raised) and (isinstance(u3, Raised) or not torch.equal(u3, t_keep)):
+            out.fail(f"{tag}/unpack-after-source-update", f"unpack() no longer returns the packed values after the caller updated the source tensor in place (R={t.shape[0]})")
+        if not isinstance(upd, Raised):
+            t.copy_(t_keep)
     payload_keep = payload.clone()
     check_routes(out, payload, bits, tag)
     if not torch.equal(payload, payload_keep):
